@@ -35,6 +35,7 @@ import (
 	"fmt"
 	"math"
 	"strconv"
+	"strings"
 
 	"github.com/XiaoMi/Gaea/mysql"
 	"github.com/XiaoMi/Gaea/util"
@@ -80,10 +81,16 @@ func CalcParams(sql string) (count int, offsets []int, sqlItems []string, err er
 	return
 }
 
-func escapeSQL(sql string) string {
+// escapeSQL makes sql the body of a single-quoted literal. With sql_mode NO_BACKSLASH_ESCAPES the backend does not
+// treat a backslash as an escape character: the quote is doubled and backslashes stay as they are.
+func escapeSQL(sql string, noBackslashEscapes bool) string {
 	t := make([]byte, 0, len(sql))
 	for _, elem := range []byte(sql) {
-		if elem == '\\' || elem == '\'' {
+		if noBackslashEscapes {
+			if elem == '\'' {
+				t = append(t, '\'')
+			}
+		} else if elem == '\\' || elem == '\'' {
 			t = append(t, '\\')
 		}
 		t = append(t, elem)
@@ -118,6 +125,11 @@ func (s *Stmt) GetParamTypes() []byte {
 
 // GetRewriteSQL get rewrite sql
 func (s *Stmt) GetRewriteSQL() (string, error) {
+	return s.GetRewriteSQLInMode(false)
+}
+
+// GetRewriteSQLInMode get rewrite sql for a session whose sql_mode has (or has not) NO_BACKSLASH_ESCAPES
+func (s *Stmt) GetRewriteSQLInMode(noBackslashEscapes bool) (string, error) {
 	var buffer bytes.Buffer
 	index := 0
 
@@ -125,7 +137,7 @@ func (s *Stmt) GetRewriteSQL() (string, error) {
 		if s.sqlItems[i] == "?" {
 			quote, tmp := util.ItoString(s.args[index])
 			index++
-			tmp = escapeSQL(tmp)
+			tmp = escapeSQL(tmp, noBackslashEscapes)
 			if quote {
 				tmp = "'" + tmp + "'"
 			}
@@ -200,7 +212,7 @@ func (se *SessionExecutor) handleStmtExecute(reqCtx *util.RequestContext, data [
 			return nil, err
 		}
 
-		executeSQL, err = s.GetRewriteSQL()
+		executeSQL, err = s.GetRewriteSQLInMode(se.noBackslashEscapes())
 		if err != nil {
 			return nil, err
 		}
@@ -209,6 +221,21 @@ func (se *SessionExecutor) handleStmtExecute(reqCtx *util.RequestContext, data [
 	}
 	// execute sql using ComQuery
 	return se.handleQuery(reqCtx, executeSQL)
+}
+
+// noBackslashEscapes tells whether the session has set sql_mode with NO_BACKSLASH_ESCAPES (SET sql_mode is passed
+// on to the backend, which then reads a backslash inside a literal as an ordinary character)
+func (se *SessionExecutor) noBackslashEscapes() bool {
+	v, ok := se.sessionVariables.Get(mysql.SQLModeStr)
+	if !ok {
+		return false
+	}
+	variable, ok := v.(*mysql.Variable)
+	if !ok {
+		return false
+	}
+	mode, ok := variable.Get().(string)
+	return ok && strings.Contains(strings.ToUpper(mode), "NO_BACKSLASH_ESCAPES")
 }
 
 // long data and generic args are all in s.args
